@@ -37,6 +37,7 @@ use ractor::{
 // -----------------------------------------------------------------------------------------
 
 /// Run `f` on a paused single-thread runtime; panics are silent (they are caught by ractor).
+#[cfg(not(feature = "async-std"))]
 pub fn run_paused<F: Future>(f: F) -> F::Output {
     std::panic::set_hook(Box::new(|_| {}));
     let rt = tokio::runtime::Builder::new_current_thread()
@@ -45,6 +46,17 @@ pub fn run_paused<F: Future>(f: F) -> F::Output {
         .build()
         .expect("runtime");
     rt.block_on(f)
+}
+
+/// async-std backend (package `hcoreas`): the harness future runs under `async_std::task::block_on`,
+/// every ractor task is spawned by ractor on async-std's global multi-thread executor. All of them are
+/// gated (`verif::controlled` is hooked into async_std_primitives.rs too), so at any time at most the
+/// one granted task is being polled, on whichever executor thread picks it up; `Engine::poll_task`
+/// waits until that poll has happened. There is no clock to pause: the Life ops use no timer.
+#[cfg(feature = "async-std")]
+pub fn run_paused<F: Future>(f: F) -> F::Output {
+    std::panic::set_hook(Box::new(|_| {}));
+    async_std::task::block_on(f)
 }
 
 pub struct Engine {
@@ -166,6 +178,8 @@ pub enum Fx {
     Forget(u32),
     /// `pg::join(group, [myself])`
     Join(String),
+    /// spawn child `c` from inside the callback: `spawn_linked_instant(None, child, args, myself)`
+    SpawnChild(usize),
 }
 
 #[derive(Clone, Debug, PartialEq, Eq)]
@@ -193,6 +207,7 @@ impl std::fmt::Display for Seg {
                 Fx::Reply(k, v) => write!(f, "reply:{k}:{v} ")?,
                 Fx::Forget(k) => write!(f, "forget:{k} ")?,
                 Fx::Join(g) => write!(f, "join:{g} ")?,
+                Fx::SpawnChild(c) => write!(f, "spawnchild:{c} ")?,
             }
         }
         match self.term {
@@ -218,6 +233,7 @@ impl Seg {
                 ["reply", k, v] => Fx::Reply(k.parse().ok()?, v.parse().ok()?),
                 ["forget", k] => Fx::Forget(k.parse().ok()?),
                 ["join", g] => Fx::Join(g.to_string()),
+                ["spawnchild", c] => Fx::SpawnChild(c.parse().ok()?),
                 _ => return None,
             });
         }
@@ -248,6 +264,21 @@ pub struct Shared {
     pub pids: Mutex<HashMap<u64, usize>>,
     /// prefix that makes registry names / group names unique per case (`c<case>-`)
     pub tag: Mutex<String>,
+    /// what a callback needs to spawn a child itself (`Fx::SpawnChild`): the task controller of the
+    /// case, the thread-local spawner / adapter flavour; the children born inside callbacks since the
+    /// last `collect`
+    pub ctl: Mutex<Option<Arc<Controller>>>,
+    pub spawner: Mutex<Option<ractor::thread_local::ThreadLocalActorSpawner>>,
+    pub adapter: std::sync::atomic::AtomicBool,
+    pub born: Mutex<Vec<Born>>,
+}
+
+/// A child spawned from inside a callback with `spawn_linked_instant`.
+pub struct Born {
+    pub idx: usize,
+    pub sup: usize,
+    pub inst: InstHandle,
+    pub task: Option<Arc<TaskCtl>>,
 }
 
 impl Shared {
@@ -366,6 +397,47 @@ pub async fn run_cb(sh: &Arc<Shared>, a: usize, cb: &'static str, arg: String) -
                     Fx::Join(g) => {
                         ractor::pg::join(sh.real(g), vec![me.get_cell()]);
                         verif::note(format!("fx join {g}"));
+                    }
+                    Fx::SpawnChild(c) => {
+                        let c = *c;
+                        {
+                            let mut s = sh.slots.lock().unwrap();
+                            while s.len() <= c {
+                                s.push(Slot::default());
+                            }
+                        }
+                        let ctl = sh.ctl.lock().unwrap().clone().expect("controller");
+                        let before = ctl.len();
+                        let spawner = sh.spawner.lock().unwrap().clone();
+                        let res = if let Some(spawner) = spawner.clone() {
+                            use ractor::thread_local::ThreadLocalActor;
+                            let args = (c, sh.clone());
+                            if sh.adapter.load(std::sync::atomic::Ordering::SeqCst) {
+                                <ScriptedSend as ThreadLocalActor>::spawn_linked_instant(None, args, me.get_cell(), spawner)
+                            } else {
+                                ScriptedLocal::spawn_linked_instant(None, args, me.get_cell(), spawner)
+                            }
+                        } else {
+                            ractor::ActorRuntime::<Scripted>::spawn_linked_instant(
+                                None,
+                                Scripted { idx: c, sh: sh.clone() },
+                                (),
+                                me.get_cell(),
+                            )
+                        };
+                        match res {
+                            Ok((r, h)) => {
+                                sh.pids.lock().unwrap().insert(r.get_id().pid(), c);
+                                sh.slots.lock().unwrap()[c].me = Some(r);
+                                let task = if ctl.len() == before + 1 { ctl.task(before) } else { None };
+                                sh.born.lock().unwrap().push(Born { idx: c, sup: a, inst: h, task });
+                                verif::note(format!(
+                                    "fx spawnchild {c}{}",
+                                    if spawner.is_some() { " local" } else { "" }
+                                ));
+                            }
+                            Err(e) => verif::note(format!("fx spawnchild {c} Err({})", spawn_err_str(&e))),
+                        }
                     }
                 }
             }
@@ -584,6 +656,8 @@ impl Actor for ScriptedSend {
 // -----------------------------------------------------------------------------------------
 
 pub type SpawnRes = Result<(ActorRef<Msg>, JoinHandle<()>), SpawnErr>;
+/// the start handle of `spawn_instant*`
+pub type InstHandle = JoinHandle<Result<JoinHandle<()>, SpawnErr>>;
 
 #[derive(Default)]
 pub struct ActorSlot {
@@ -597,11 +671,22 @@ pub struct ActorSlot {
     pub open: Option<String>,
     /// a segment was supplied and not yet consumed
     pub seg_pending: bool,
+    /// `spawn_instant*`: the start handle, the gated task that runs `start()` (on the harness runtime),
+    /// whether that task was polled at least once
+    pub inst: Option<InstHandle>,
+    pub inst_task: Option<Arc<TaskCtl>>,
+    pub inst_started: bool,
+    /// the supervisor requested at spawn time (the link is made when `start()` gets there)
+    pub want_sup: Option<usize>,
 }
 
 impl ActorSlot {
     pub fn spawn_alive(&self) -> bool {
-        self.spawn.as_ref().is_some_and(|s| s.alive())
+        self.spawn.as_ref().is_some_and(|s| s.alive()) || self.inst_task.as_ref().is_some_and(|t| !t.is_done())
+    }
+    /// an instant spawn whose start task was never polled
+    pub fn unstarted_instant(&self) -> bool {
+        self.inst_task.as_ref().is_some_and(|t| !t.is_done()) && !self.inst_started
     }
     pub fn task_live(&self) -> bool {
         self.task.as_ref().is_some_and(|t| !t.is_done())
@@ -751,6 +836,7 @@ impl World {
         self.actors.push(ActorSlot {
             spawn: Some(hand),
             start_task: Some(st.clone()),
+            want_sup: sup,
             ..Default::default()
         });
         // first granted poll of the start task: `pre_start` is entered
@@ -770,8 +856,8 @@ impl World {
         if !st.is_done() {
             let before = self.eng.ntasks();
             self.eng.poll_task(&st).await;
-            if self.eng.ntasks() == before + 1 {
-                self.actors[a].task = self.eng.ctl.task(before);
+            if let Some(t) = self.new_loop_task(before) {
+                self.actors[a].task = Some(t);
             }
         }
         if st.is_done() {
@@ -816,6 +902,263 @@ impl World {
         }
     }
 
+    /// `spawn_instant` / `spawn_linked_instant` (Send, thread-local or adapter flavour): only `new()`
+    /// runs; the `ActorRef` is registered at once, the start task is gated and not yet polled.
+    pub fn spawn_instant(&mut self, sup: Option<usize>, name: Option<&str>) -> usize {
+        let a = self.actors.len();
+        self.sh.slots.lock().unwrap().push(Slot::default());
+        if let Some(n) = name {
+            self.note_name(n);
+        }
+        let real = name.map(|n| self.sh.real(n));
+        let before = self.eng.ntasks();
+        let supcell = sup.and_then(|p| self.me(p)).map(|p| p.get_cell());
+        let res = if let Some(spawner) = self.local.clone() {
+            use ractor::thread_local::ThreadLocalActor;
+            let args = (a, self.sh.clone());
+            match (self.adapter, supcell) {
+                (false, Some(p)) => ScriptedLocal::spawn_linked_instant(real, args, p, spawner),
+                (false, None) => ScriptedLocal::spawn_instant(real, args, spawner),
+                (true, Some(p)) => <ScriptedSend as ThreadLocalActor>::spawn_linked_instant(real, args, p, spawner),
+                (true, None) => <ScriptedSend as ThreadLocalActor>::spawn_instant(real, args, spawner),
+            }
+        } else {
+            let handler = Scripted {
+                idx: a,
+                sh: self.sh.clone(),
+            };
+            match supcell {
+                Some(p) => ractor::ActorRuntime::<Scripted>::spawn_linked_instant(real, handler, (), p),
+                None => ractor::ActorRuntime::<Scripted>::spawn_instant(real, handler, ()),
+            }
+        };
+        match res {
+            Err(e) => {
+                verif::note(format!("ret Err({})", spawn_err_str(&e)));
+                self.actors.push(ActorSlot::default());
+            }
+            Ok((r, h)) => {
+                assert_eq!(self.eng.ntasks(), before + 1, "spawn_instant must create exactly one task");
+                self.sh.pids.lock().unwrap().insert(r.get_id().pid(), a);
+                self.sh.slots.lock().unwrap()[a].me = Some(r);
+                self.actors.push(ActorSlot {
+                    inst: Some(h),
+                    inst_task: self.eng.ctl.task(before),
+                    want_sup: sup,
+                    ..Default::default()
+                });
+                verif::note("inst Ok".into());
+            }
+        }
+        a
+    }
+
+    /// The start task of an instant spawn is over: report what its handle says.
+    fn finish_instant(&mut self, a: usize) {
+        let Some(h) = self.actors[a].inst.take() else { return };
+        let mut hand = Hand::new(h);
+        let mut res = hand.poll_once();
+        let mut i = 0u32;
+        while res.is_none() && i < 200_000 {
+            if i > 50 {
+                std::thread::sleep(std::time::Duration::from_micros(20));
+            } else {
+                std::thread::yield_now();
+            }
+            res = hand.poll_once();
+            i += 1;
+        }
+        match res {
+            Some(Ok(Ok(h))) => {
+                self.actors[a].handle = Some(h);
+                verif::note("ret Ok".into());
+            }
+            Some(Ok(Err(e))) => verif::note(format!("ret Err({})", spawn_err_str(&e))),
+            #[cfg(not(feature = "async-std"))]
+            Some(Err(e)) if e.is_cancelled() => verif::note("sjoin Cancelled".into()),
+            #[cfg(not(feature = "async-std"))]
+            Some(Err(_)) => verif::note("ret Panic".into()),
+            // async-std backend: `Err(())` = the `Abortable` wrapper saw the abort flag
+            #[cfg(feature = "async-std")]
+            Some(Err(())) => verif::note("sjoin Cancelled".into()),
+            None => verif::note("ret Pending".into()),
+        }
+    }
+
+    /// One poll of the start task of an instant spawn (`pollspawn a` on such an actor).
+    async fn pollspawn_instant(&mut self, a: usize) {
+        let Some(ot) = self.actors[a].inst_task.clone() else {
+            verif::note("nospawn".into());
+            return;
+        };
+        if ot.is_done() {
+            verif::note("nospawn".into());
+            return;
+        }
+        let first = !self.actors[a].inst_started;
+        self.actors[a].inst_started = true;
+        if self.local.is_none() {
+            let before = self.eng.ntasks();
+            self.eng.poll_task(&ot).await;
+            if ot.is_done() {
+                if let Some(t) = self.new_loop_task(before) {
+                    self.actors[a].task = Some(t);
+                }
+                self.finish_instant(a);
+            }
+            return;
+        }
+        // thread-local: the outer task (harness runtime) runs `start()`: status, link, ship the
+        // builder; the inner start task (spawner thread) runs `pre_start`; then the loop task
+        if first {
+            let before = self.eng.ntasks();
+            self.eng.poll_task(&ot).await;
+            if ot.is_done() {
+                self.finish_instant(a);
+                return;
+            }
+            let eng_ctl = self.eng.ctl.clone();
+            self.spin_until("instant start task", || eng_ctl.len() == before + 1);
+            self.actors[a].start_task = self.eng.ctl.task(before);
+        }
+        let st = self.actors[a].start_task.clone().expect("inner start task");
+        if !st.is_done() {
+            let before = self.eng.ntasks();
+            self.eng.poll_task(&st).await;
+            if let Some(t) = self.new_loop_task(before) {
+                self.actors[a].task = Some(t);
+            }
+        }
+        if st.is_done() {
+            // the outer task takes the reply / the inner join result and completes
+            for i in 0..200_000u32 {
+                self.eng.poll_task(&ot).await;
+                if ot.is_done() {
+                    break;
+                }
+                if i > 50 {
+                    std::thread::sleep(std::time::Duration::from_micros(20));
+                } else {
+                    std::thread::yield_now();
+                }
+            }
+            assert!(ot.is_done(), "outer start task of a finished instant start never completed");
+            self.finish_instant(a);
+        }
+    }
+
+    /// `dropspawn a` on an instant spawn: abort the start task through its handle.
+    async fn dropspawn_instant(&mut self, a: usize) {
+        let Some(ot) = self.actors[a].inst_task.clone() else {
+            verif::note("nospawn".into());
+            return;
+        };
+        if ot.is_done() {
+            verif::note("nospawn".into());
+            return;
+        }
+        if let Some(h) = self.actors[a].inst.as_mut() {
+            h.abort();
+        }
+        self.eng.settle_done(&ot).await;
+        if let Some(st) = self.actors[a].start_task.clone() {
+            self.eng.settle_done(&st).await;
+        }
+        self.finish_instant(a);
+    }
+
+    /// The loop task created since the controller had `before` tasks: the new task that is not the start
+    /// task of a child some callback spawned meanwhile (`Fx::SpawnChild`).
+    fn new_loop_task(&self, before: usize) -> Option<Arc<TaskCtl>> {
+        let born: Vec<usize> = self
+            .sh
+            .born
+            .lock()
+            .unwrap()
+            .iter()
+            .filter_map(|b| b.task.as_ref().map(|t| t.id))
+            .collect();
+        (before..self.eng.ntasks())
+            .filter_map(|i| self.eng.ctl.task(i))
+            .find(|t| !born.contains(&t.id))
+    }
+
+    /// Publish to the callbacks what they need to spawn children themselves (after every engine reset /
+    /// change of flavour).
+    pub fn sync_shared(&self) {
+        *self.sh.ctl.lock().unwrap() = Some(self.eng.ctl.clone());
+        *self.sh.spawner.lock().unwrap() = self.local.clone();
+        self.sh.adapter.store(self.adapter, std::sync::atomic::Ordering::SeqCst);
+    }
+
+    /// Would `a.link(p)` close a supervision cycle? (`p` is `a` or has `a` among its ancestors,
+    /// following the real supervisor links and the links that pending starts are going to make.)
+    /// ractor does not refuse such a link; in a cycle a dying actor's own `terminate()` comes back
+    /// to it and clears its supervisor before `notify_supervisor`. The harness never builds one.
+    pub fn would_cycle(&self, a: usize, p: usize) -> bool {
+        let mut seen = vec![false; self.actors.len()];
+        let mut stack = vec![p];
+        while let Some(x) = stack.pop() {
+            if x == a {
+                return true;
+            }
+            if x >= seen.len() || seen[x] {
+                continue;
+            }
+            seen[x] = true;
+            if let Some(me) = self.me(x) {
+                if let Some(q) = me.get_cell().try_get_supervisor() {
+                    if let Some(i) = self.sh.pids.lock().unwrap().get(&q.get_id().pid()) {
+                        stack.push(*i);
+                    }
+                }
+            }
+            if self.actors[x].spawn_alive() {
+                if let Some(q) = self.actors[x].want_sup {
+                    stack.push(q);
+                }
+            }
+        }
+        false
+    }
+
+    /// Feature `monitors`: `m.monitor(a)` / `m.unmonitor(a)`. Without the feature: `nomon`.
+    pub fn monitor(&mut self, m: usize, a: usize, on: bool) {
+        #[cfg(feature = "monitors")]
+        match (self.me(m), self.me(a)) {
+            (Some(x), Some(y)) => {
+                if on {
+                    x.get_cell().monitor(y.get_cell())
+                } else {
+                    x.get_cell().unmonitor(y.get_cell())
+                }
+            }
+            _ => verif::note("nocell".into()),
+        }
+        #[cfg(not(feature = "monitors"))]
+        {
+            let _ = (m, a, on);
+            verif::note("nomon".into());
+        }
+    }
+    pub fn monitors_enabled(&self) -> bool {
+        cfg!(feature = "monitors")
+    }
+
+    /// The public `ActorCell::link` / `unlink`.
+    pub fn link(&mut self, a: usize, p: usize) {
+        match (self.me(a), self.me(p)) {
+            (Some(x), Some(y)) => x.get_cell().link(y.get_cell()),
+            _ => verif::note("nocell".into()),
+        }
+    }
+    pub fn unlink(&mut self, a: usize, p: usize) {
+        match (self.me(a), self.me(p)) {
+            (Some(x), Some(y)) => x.get_cell().unlink(y.get_cell()),
+            _ => verif::note("nocell".into()),
+        }
+    }
+
     /// Variant-independent entry points used by the harness binaries.
     pub async fn spawn_any(&mut self, sup: Option<usize>, name: Option<&str>) -> usize {
         if self.local.is_some() {
@@ -825,14 +1168,18 @@ impl World {
         }
     }
     pub async fn pollspawn_any(&mut self, a: usize) {
-        if self.local.is_some() {
+        if self.actors[a].inst_task.is_some() {
+            self.pollspawn_instant(a).await
+        } else if self.local.is_some() {
             self.pollspawn_local(a).await
         } else {
             self.pollspawn(a)
         }
     }
     pub async fn dropspawn_any(&mut self, a: usize) {
-        if self.local.is_some() {
+        if self.actors[a].inst_task.is_some() {
+            self.dropspawn_instant(a).await
+        } else if self.local.is_some() {
             self.dropspawn_local(a).await
         } else {
             self.dropspawn(a)
@@ -877,6 +1224,7 @@ impl World {
         };
         self.actors.push(ActorSlot {
             spawn: Some(hand),
+            want_sup: sup,
             ..Default::default()
         });
         self.pollspawn(a);
@@ -896,13 +1244,13 @@ impl World {
         match hand.poll_once() {
             None => {}
             Some(Ok((_r, h))) => {
-                assert_eq!(self.eng.ntasks(), before + 1, "spawn must create exactly one task");
                 self.actors[a].handle = Some(h);
-                self.actors[a].task = self.eng.ctl.task(before);
+                self.actors[a].task = self.new_loop_task(before);
+                assert!(self.actors[a].task.is_some(), "spawn must create the loop task");
                 verif::note("ret Ok".into());
             }
             Some(Err(e)) => {
-                assert_eq!(self.eng.ntasks(), before);
+                assert!(self.new_loop_task(before).is_none());
                 verif::note(format!("ret Err({})", spawn_err_str(&e)));
             }
         }
@@ -925,7 +1273,8 @@ impl World {
     }
 
     pub async fn abort(&mut self, a: usize) {
-        match (self.actors[a].task.clone(), self.actors[a].handle.as_ref()) {
+        // `as_mut`: the async-std backend's `JoinHandle::abort` takes `&mut self`
+        match (self.actors[a].task.clone(), self.actors[a].handle.as_mut()) {
             (Some(t), Some(h)) if !t.is_done() => {
                 h.abort();
                 self.eng.settle_done(&t).await;
@@ -1078,6 +1427,16 @@ impl World {
     /// Collect everything observable after one op: the ordered notes (plus join results of tasks
     /// that just finished), every actor's status / supervisor / number of children, the runnable set.
     pub fn collect(&mut self) -> String {
+        // children born inside callbacks during this op get their slots
+        for b in self.sh.born.lock().unwrap().drain(..) {
+            assert_eq!(b.idx, self.actors.len(), "a callback-spawned child must take the next slot");
+            self.actors.push(ActorSlot {
+                inst: Some(b.inst),
+                inst_task: b.task,
+                want_sup: Some(b.sup),
+                ..Default::default()
+            });
+        }
         let mut ev: Vec<String> = verif::take_notes().iter().map(|n| self.fmt_note(n)).collect();
         // join handles of tasks that are gone now
         for (a, s) in self.actors.iter_mut().enumerate() {
@@ -1103,16 +1462,81 @@ impl World {
                     res = hand.poll_once();
                     i += 1;
                 }
+                #[cfg(not(feature = "async-std"))]
                 let r = match res {
                     Some(Ok(())) => "Ok",
                     Some(Err(e)) if e.is_cancelled() => "Cancelled",
                     Some(Err(_)) => "Panic",
                     None => "Pending",
                 };
+                // async-std backend: `JoinHandle<T>: Future<Output = Result<T, ()>>`, `Err(())` = the
+                // `Abortable` wrapper saw the abort flag (a panic escaping a task is not reported as a value by this handle; ractor catches callback panics itself)
+                #[cfg(feature = "async-std")]
+                let r = match res {
+                    Some(Ok(())) => "Ok",
+                    Some(Err(())) => "Cancelled",
+                    None => "Pending",
+                };
                 ev.push(format!("join {a} {r}"));
                 s.joined = true;
             }
         }
+        // feature `monitors`: `monemit <to pid> <kind> <who pid> s<0|1> <text>` (hook in `notify_supervisor`,
+        // one per monitor, HashMap order): pids -> indices, each run of consecutive notes sorted by target;
+        // `mondrop <who pid> <monitor pid>` (a send to a dead monitor failed): a sorted extra field
+        let mut md: Vec<String> = Vec::new();
+        {
+            let pid_idx = |p: &str| -> String {
+                match p.parse::<u64>().ok().and_then(|p| self.sh.pids.lock().unwrap().get(&p).copied()) {
+                    Some(i) => i.to_string(),
+                    None => format!("?{p}"),
+                }
+            };
+            let mut out: Vec<String> = Vec::new();
+            let mut run: Vec<(usize, String)> = Vec::new();
+            let flush = |run: &mut Vec<(usize, String)>, out: &mut Vec<String>| {
+                run.sort();
+                out.extend(run.drain(..).map(|x| x.1));
+            };
+            for e in ev.drain(..) {
+                let w: Vec<&str> = e.split(' ').collect();
+                match w.as_slice() {
+                    ["monemit", to, kind, who, st, text] => {
+                        let to_i = pid_idx(to);
+                        let who_i = pid_idx(who);
+                        let line = match *kind {
+                            "Started" => format!("monemit {to_i} Started {who_i}"),
+                            "Terminated" => format!("monemit {to_i} Terminated {who_i} {st} {text}"),
+                            "Failed" => format!("monemit {to_i} Failed {who_i} {text}"),
+                            k => format!("monemit {to_i} {k} {who_i}"),
+                        };
+                        run.push((to_i.parse::<usize>().unwrap_or(usize::MAX), line));
+                    }
+                    ["mondrop", who, m] => md.push(format!("{}:{}", pid_idx(who), pid_idx(m))),
+                    _ => {
+                        flush(&mut run, &mut out);
+                        out.push(e);
+                    }
+                }
+            }
+            flush(&mut run, &mut out);
+            ev = out;
+            md.sort();
+        }
+        // kills issued by a `terminate()` (hook note `treekill <pid>`): a sorted extra field
+        let mut tk: Vec<usize> = Vec::new();
+        let mut tk_unknown = false;
+        ev.retain(|e| match e.strip_prefix("treekill ") {
+            Some(pid) => {
+                match pid.parse::<u64>().ok().and_then(|p| self.sh.pids.lock().unwrap().get(&p).copied()) {
+                    Some(i) => tk.push(i),
+                    None => tk_unknown = true,
+                }
+                false
+            }
+            None => true,
+        });
+        tk.sort();
         // track open callbacks / pending segments from the notes
         for e in &ev {
             let w: Vec<&str> = e.split(' ').collect();
@@ -1148,10 +1572,17 @@ impl World {
                 let mut kids: Vec<String> =
                     cell.get_children().iter().map(|c| self.sh.idx_of(c.get_id())).collect();
                 kids.sort();
+                // `x`: the child set was closed by a `terminate()` (hook `verif_children_open`)
                 st.push(format!(
                     "{a}:{}/{sup}/{}",
                     status_str(cell.get_status()),
-                    if kids.is_empty() { "-".to_string() } else { kids.join(",") }
+                    if !cell.verif_children_open() {
+                        "x".to_string()
+                    } else if kids.is_empty() {
+                        "-".to_string()
+                    } else {
+                        kids.join(",")
+                    }
                 ));
             }
         }
@@ -1177,8 +1608,20 @@ impl World {
             m.sort();
             tables.push(format!("{g}={}", if m.is_empty() { "-".to_string() } else { m.join(",") }));
         }
+        let mut tail = if tk.is_empty() && !tk_unknown {
+            String::new()
+        } else {
+            format!(
+                " | tk={}{}",
+                tk.iter().map(|i| i.to_string()).collect::<Vec<_>>().join(","),
+                if tk_unknown { "?" } else { "" }
+            )
+        };
+        if !md.is_empty() {
+            tail.push_str(&format!(" | md={}", md.join(",")));
+        }
         format!(
-            "{evs} | {} | run={} | {}",
+            "{evs} | {} | run={} | {}{tail}",
             if st.is_empty() { "-".to_string() } else { st.join(" ") },
             if run.is_empty() { "-".to_string() } else { run.join(",") },
             if tables.is_empty() { "-".to_string() } else { tables.join(" ") }
@@ -1191,11 +1634,17 @@ impl World {
             if let Some(h) = s.spawn.as_mut() {
                 h.drop_now();
             }
-            if let Some(h) = s.handle.as_ref() {
+            if let Some(h) = s.handle.as_mut() {
+                h.abort();
+            }
+            if let Some(h) = s.inst.as_mut() {
                 h.abort();
             }
         }
         for s in self.actors.iter() {
+            if let Some(t) = s.inst_task.clone() {
+                self.eng.settle_done(&t).await;
+            }
             if let Some(t) = s.start_task.clone() {
                 self.eng.settle_done(&t).await;
             }
@@ -1206,6 +1655,7 @@ impl World {
         self.waits.clear();
         self.calls.clear();
         self.sh.slots.lock().unwrap().clear();
+        self.sh.born.lock().unwrap().clear();
         self.actors.clear();
         self.names.clear();
         self.groups.clear();
